@@ -57,6 +57,7 @@ type Run struct {
 	Seed  int64
 	Root  string // /verif
 	Repo  string
+	Out   string // where evidence/ and replays/ go (VERIF_OUT, default Root)
 
 	start time.Time
 
@@ -95,6 +96,10 @@ func Start(prop, level string) *Run {
 	r.Repo = os.Getenv("VERIF_REPO")
 	if r.Repo == "" {
 		r.Repo = "/repo"
+	}
+	r.Out = os.Getenv("VERIF_OUT")
+	if r.Out == "" {
+		r.Out = r.Root
 	}
 	if t := os.Getenv("VERIF_TIER"); t == "quick" || t == "thorough" {
 		r.Tier = t
@@ -381,7 +386,7 @@ func (r *Run) Finish() {
 	for _, s := range sigs {
 		rec := r.viols[s]
 		h := sha256.Sum256([]byte(rec.Kind + "\x00" + rec.Sig + "\x00" + string(rec.Params)))
-		dir := filepath.Join(r.Root, "replays", r.Prop)
+		dir := filepath.Join(r.Out, "replays", r.Prop)
 		_ = os.MkdirAll(dir, 0o755)
 		p := filepath.Join(dir, hex.EncodeToString(h[:8])+".json")
 		b, _ := json.MarshalIndent(rec, "", " ")
@@ -399,6 +404,9 @@ func (r *Run) Finish() {
 	for _, s := range ks {
 		fmt.Printf("KNOWN-FINDING: property=%s %s [%s]\n", r.Prop, r.knownHit[s], s)
 	}
+	if ks == nil {
+		ks = []string{}
+	}
 	cov["known_findings_seen"] = ks
 
 	ev := map[string]any{
@@ -415,8 +423,8 @@ func (r *Run) Finish() {
 		ev["assumptions"] = []string{}
 	}
 	b, _ := json.MarshalIndent(ev, "", " ")
-	_ = os.MkdirAll(filepath.Join(r.Root, "evidence"), 0o755)
-	if err := os.WriteFile(filepath.Join(r.Root, "evidence", r.Prop+".json"), append(b, '\n'), 0o644); err != nil {
+	_ = os.MkdirAll(filepath.Join(r.Out, "evidence"), 0o755)
+	if err := os.WriteFile(filepath.Join(r.Out, "evidence", r.Prop+".json"), append(b, '\n'), 0o644); err != nil {
 		fmt.Fprintln(os.Stderr, "cannot write evidence:", err)
 	}
 	fmt.Printf("%s %s: evaluations=%d distinct_nontrivial=%d outcomes=%d states=%d transitions=%d exhaustive=%v violations=%d known=%d wall=%.1fs\n",
